@@ -28,7 +28,12 @@ ALL = [f"C{i:02d}" for i in range(1, 21)]
 
 
 def run_property(pid: str, tier: str, prog=None, quiet=False) -> int:
-    mod = importlib.import_module(f"hvsa.rules.{pid.lower()}")
+    try:
+        mod = importlib.import_module(f"hvsa.rules.{pid.lower()}")
+    except Exception as e:      # a defect of the machinery itself: never an exit code that could be read as a violation
+        print(f"ANALYSIS-ERROR property={pid} the rule module could not be loaded: {type(e).__name__}: {e}")
+        print(f"[{pid}] tier={tier} rules=0 instances=0 ok=0 violations=0 known=0 errors=1 wall=0.00s exit=2")
+        return 2
 
     def go():
         p = prog if prog is not None else Program()
